@@ -210,3 +210,73 @@ Example C07_nonvacuous :
      = Ok (V "Par" [("x", 4%Z)] (VCons "cmd" (V "Beta" [("mom", 5%Z)] VNil) VNil)).
 Proof. vm_compute. repeat split; reflexivity. Qed.
 Print Assumptions C07_nonvacuous.
+
+(* ---------- the regenerated source (Gen/FactsSubgroupsSrc.v, dumped by harness/translate/SubgroupsSrc.py) ----------
+   Two straight-line pieces of simple_parsing/parsing.py are dumped statement by statement into MiniPy and executed
+   by the MiniPy interpreter; the theorems say what they compute for EVERY namespace / table.
+   (a) `_remove_subgroups_from_namespace` (whole method): every subgroup destination moves from the namespace into
+       namespace.subgroups, in order; `_get_subgroup_fields` is an uninterpreted table.
+   (b) the per-field classification inside `_resolve_subgroups` (from `subgroup_dict = ...` to the last assert):
+       the key left in the namespace by the throw-away parser is looked up in the choice table exactly like
+       Subgroups.find_alt (unknown key -> AssertionError, as in round_sg), and (default, dataclass_fn, dataclass_type)
+       handed to `_add_arguments` are determined as stated by classify_fn.  is_dataclass_instance, is_dataclass_type,
+       callable, type are uninterpreted tables; functools.partial(dataclasses.replace, d) is a record.
+   The round loop itself (parse_known_args, wrapper construction, parent._children) is NOT dumped: SubgroupsSrc.py
+   only pins its shape (one parse_known_args(args=args, namespace=namespace) on never re-bound parameters, the
+   itertools.count() loop with its single `if not unresolved_subgroups: break`). *)
+From SPV Require Import Model.MiniPy Gen.FactsSubgroupsSrc Proofs.MiniPySubgroups.
+
+Theorem C07_source_remove_subgroups_is_model : forall wrappers table cls ns ds,
+  dget wrappers table = Some (VL (map VS ds)) ->
+  final_ns (exec_block (rm_env (VR "ArgumentParser" [("_wrappers", wrappers)]) table cls ns) remove_subgroups_src)
+  = match remove_fn cls ns ds with Ok ns' => Ok (VR cls ns') | Err z => Err z end.
+Proof. exact remove_subgroups_is_model. Qed.
+Print Assumptions C07_source_remove_subgroups_is_model.
+
+Theorem C07_source_classify_is_model : forall T choices types cls ns dest,
+  match classify_fn T choices types ns dest with
+  | Err z => exec_block (cl_env T choices types cls ns dest) classify_src = Err z
+  | Ok (dflt, fn, ty) =>
+      exists r1, exec_block (cl_env T choices types cls ns dest) classify_src = Ok (r1, None)
+                 /\ lookup "default" r1 = Some dflt /\ lookup "dataclass_fn" r1 = Some fn /\ lookup "dataclass_type" r1 = Some ty
+  end.
+Proof. exact classify_is_model. Qed.
+Print Assumptions C07_source_classify_is_model.
+
+Theorem C07_source_classify_key_is_find_alt : forall entry T types ns dest k t,
+  rget dest ns = Some (VS k) ->
+  match find_alt k t with
+  | None => classify_fn T (enc_alts entry t) types ns dest = Err (Raise "AssertionError")
+  | Some (s, d) => classify_fn T (enc_alts entry t) types ns dest = classify_fn T [(VS k, entry s d)] types ns dest
+  end.
+Proof. exact classify_key_is_find_alt. Qed.
+Print Assumptions C07_source_classify_key_is_find_alt.
+
+(* non-vacuity: the dumped statements run.  A namespace with two subgroup destinations; a choice table with a
+   dataclass type ("small") and a frozen instance ("big"); an unknown key is the AssertionError. *)
+Definition NVS_T : cl_tables :=
+  mktabs [(VC "Small", VB false); (VR "Big" [("w", VN 3)], VB true)]
+         [(VC "Small", VB true); (VC "Big", VB true)]
+         [(VC "Small", VB true); (VR "functools.partial" [("func", VC "dataclasses.replace"); ("arg", VR "Big" [("w", VN 3)])], VB true)]
+         [(VR "Big" [("w", VN 3)], VC "Big")].
+Definition NVS_CHOICES : list (MiniPy.val * MiniPy.val) := [(VS "small", VC "Small"); (VS "big", VR "Big" [("w", VN 3)])].
+Definition NVS_TYPES : list (MiniPy.val * MiniPy.val) := [(VS "small", VC "Small"); (VS "big", VC "Big")].
+Example C07_source_nonvacuous :
+  final_ns (exec_block (rm_env (VR "ArgumentParser" [("_wrappers", VS "ws")]) [(VS "ws", VL [VS "c.m"; VS "c.o"])] "Namespace"
+                               [("c.m", VS "small"); ("x", VN 1); ("c.o", VS "adam")]) remove_subgroups_src)
+  = Ok (VR "Namespace" [("x", VN 1); ("subgroups", VD [(VS "c.m", VS "small"); (VS "c.o", VS "adam")])])
+  /\ final_ns (exec_block (rm_env (VR "ArgumentParser" [("_wrappers", VS "ws")]) [(VS "ws", VL [])] "Namespace"
+                               [("x", VN 1)]) remove_subgroups_src)
+  = Ok (VR "Namespace" [("x", VN 1)])
+  /\ final_ns (exec_block (rm_env (VR "ArgumentParser" [("_wrappers", VS "ws")]) [(VS "ws", VL [VS "c.m"])] "Namespace"
+                               [("x", VN 1)]) remove_subgroups_src)
+  = Err (Raise "AttributeError")
+  /\ classify_fn NVS_T NVS_CHOICES NVS_TYPES [("c.m", VS "small")] "c.m" = Ok (VNone, VC "Small", VC "Small")
+  /\ classify_fn NVS_T NVS_CHOICES NVS_TYPES [("c.m", VS "big")] "c.m"
+     = Ok (VR "Big" [("w", VN 3)], VR "functools.partial" [("func", VC "dataclasses.replace"); ("arg", VR "Big" [("w", VN 3)])], VC "Big")
+  /\ classify_fn NVS_T NVS_CHOICES NVS_TYPES [("c.m", VS "huge")] "c.m" = Err (Raise "AssertionError")
+  /\ exec_block (cl_env NVS_T NVS_CHOICES NVS_TYPES "Namespace" [("c.m", VS "huge")] "c.m") classify_src = Err (Raise "AssertionError")
+  /\ (exists r1, exec_block (cl_env NVS_T NVS_CHOICES NVS_TYPES "Namespace" [("c.m", VS "big")] "c.m") classify_src = Ok (r1, None)
+                 /\ lookup "dataclass_type" r1 = Some (VC "Big")).
+Proof. repeat split; try (vm_compute; reflexivity). eexists. split; vm_compute; reflexivity. Qed.
+Print Assumptions C07_source_nonvacuous.
